@@ -595,7 +595,7 @@ func (c *Ctx) tNewWorld(tc tConfig) *tWorld {
 // ingest adds rows (ids from len(w.rows)) in random batches, flushing at random points and at the end.
 func (c *Ctx) tIngest(w *tWorld, rows []map[string]any) {
 	ctx := context.Background()
-	var dones []chan error
+	var dones, rejected []chan error
 	for i := 0; i < len(rows); {
 		n := 1 + c.intn(6)
 		if i+n > len(rows) {
@@ -613,11 +613,44 @@ func (c *Ctx) tIngest(w *tWorld, rows []map[string]any) {
 		must(w.eng.IngestRows(ctx, batch, done))
 		dones = append(dones, done)
 		i += n
+		// a batch the engine must reject as a whole: well-formed rows for partitions that have buffered
+		// rows right now, carrying field names and tokens no stored row has, then a row that cannot be
+		// serialized. Nothing of it may reach a file: not its rows, not their index entries.
+		if c.chance(0.3) {
+			var ghost []map[string]any
+			for k := 0; k < 1+c.intn(2); k++ {
+				g := map[string]any{}
+				for f, v := range batch[c.intn(len(batch))] {
+					g[f] = v
+				}
+				g["id"] = -1 - k
+				g[fmt.Sprintf("ghostfield%d", i+k)] = fmt.Sprintf("ghosttoken%d rejected%d", i+k, k)
+				ghost = append(ghost, g)
+			}
+			bad := map[string]any{"id": -9, "bad": make(chan int)}
+			if p, ok := ghost[0]["p"]; ok {
+				bad["p"] = p
+			}
+			ghost = append(ghost, bad)
+			rdone := make(chan error, 1)
+			must(w.eng.IngestRows(ctx, ghost, rdone))
+			rejected = append(rejected, rdone)
+		}
 		if c.chance(0.25) {
 			must(w.eng.Flush(ctx))
 		}
 	}
 	must(w.eng.Flush(ctx))
+	for _, d := range rejected {
+		select {
+		case err := <-d:
+			if err == nil {
+				panic("a batch with a row that cannot be serialized was acknowledged with nil")
+			}
+		case <-time.After(30 * time.Second):
+			panic("rejected batch not answered after Flush")
+		}
+	}
 	// acknowledgements arrive once the rows are durable
 	for _, d := range dones {
 		select {
